@@ -15,8 +15,8 @@ VALUES = {
     "time_type": ["0", "1", "2", "", "x"],
     "min_waiting_time": ["180", "0", "-1", "abc", "", "2147483647", "2147483648", "12abc", " 30", "+5", "40000"],
     "max_travel_time": ["3600", "0", "-1", "abc", "", "2147483647", "2147483648", "1"],
-    "max_access_travel_time": ["600", "0", "-7", "zz", "2147483647"],
-    "max_egress_travel_time": ["600", "0", "-7", "", "99999999999"],
+    "max_access_travel_time": ["600", "0", "-7", "zz", "2147483647", "1"],
+    "max_egress_travel_time": ["600", "0", "-7", "", "99999999999", "1"],
     "max_transfer_travel_time": ["300", "0", "-1", "x1", "1"],
     "max_first_waiting_time": ["900", "0", "-1", "abc", "1"],
     "origin": ["-73.0,45.0001", "abc", "", "1,2,3", "1", ",", "1e999,2", " 1, 2", "inf,nan", "0x10,1", "-73.0;45.0", "1,", ",2", ".5,.5", "1.5e2,2", "1e-999,1"],
@@ -197,14 +197,19 @@ def main(pid, tier, seed, replay_path=None):
         # time extremes on an otherwise valid query: must be answered and must not kill the process
         for t in [0, 1, 3599, 3600, 86399, 86400, 115199, 115200, 115201, 118799, 118800, 200000, 2147483647]:
             for tt in (0, 1):
-                qs = qs_of("route", [("origin", "-73.0,45.0001"), ("destination", "-73.0,45.0002"), ("scenario_id", SCEN(1)), ("time_of_trip", str(t)), ("time_type", str(tt))])
+              for kind in ("route", "access", "summary"):
+                lst = ([("place", "-73.0,45.0001")] if kind == "access" else [("origin", "-73.0,45.0001"), ("destination", "-73.0,45.0002")]) + \
+                      [("scenario_id", SCEN(1)), ("time_of_trip", str(t)), ("time_type", str(tt))]
+                qs = qs_of("access" if kind == "access" else "route", lst)
+                if kind == "summary":
+                    qs = qs.replace("/v2/route?", "/v2/summary?", 1)
                 st, hd, body = srv.get(qs, timeout=20)
-                got = parse_http("route", st, hd, body)
+                got = parse_http(kind, st, hd, body)
                 l3_evals += 1
                 if not got.startswith("http 200 answer %d %d" % (t, tt)):
-                    fails.append(("time_of_trip=%d: expected an answer with the query echoed, got %r" % (t, got), qs))
+                    fails.append(("%s, time_of_trip=%d: expected an answer with the query echoed, got %r" % (kind, t, got), qs))
                 if not srv.alive():
-                    fails.append(("time_of_trip=%d kills the server (exit %s)" % (t, srv.exit_status()), qs))
+                    fails.append(("%s, time_of_trip=%d kills the server (exit %s)" % (kind, t, srv.exit_status()), qs))
                     srv = l3.Server(binary, cache, stub.port)
         # the same extremes with EVERY stop far away and no walking limit (max_access/egress_travel_time=0): the shortest
         # access / egress walk is then 100000 s, so "request time minus the shortest egress walk" is far below 0:00 and
@@ -281,14 +286,52 @@ def main(pid, tier, seed, replay_path=None):
                     srv = l3.Server(binary, cache, stub.port)
         # an unknown extra parameter must not redirect the reload (e.g. be taken for the custom cache path): after a full refresh
         # carrying one, a valid request is answered as before
+        # (a server started for this probe: the requests above may have left this one without data if an extra parameter
+        # redirects the reload -- then "before" and "after" would agree on a data error)
+        srv.stop()
+        srv = l3.Server(binary, cache, stub.port)
         probe = qs_of("route", [("origin", "-73.0,45.0001"), ("destination", "-73.0,45.0002"), ("scenario_id", SCEN(1)), ("time_of_trip", "36000")])
         st_a, hd_a, body_a = srv.get(probe, timeout=20)
+        if not parse_http("route", st_a, hd_a, body_a).startswith("http 200 answer"):
+            fails.append(("probe request on a freshly started server is not answered: %r" % parse_http("route", st_a, hd_a, body_a), probe))
         st_u, hd_u, body_u = srv.get("/updateCache?names=all&foo=bar", timeout=60)
         st_b, hd_b, body_b = srv.get(probe, timeout=20)
         l3_evals += 3
         if st_a is None or st_b is None or body_a != body_b:
             fails.append(("after /updateCache?names=all&foo=bar the same request is answered differently (%s... -> %s...)" %
                           ((body_a or b"")[:80], (body_b or b"")[:80]), "/updateCache?names=all&foo=bar"))
+        try:
+            if json.loads(body_u.decode()).get("custom_cache_path") != "":
+                fails.append(("/updateCache?names=all&foo=bar: the success object reports custom_cache_path=%r" % json.loads(body_u.decode()).get("custom_cache_path"), "/updateCache?names=all&foo=bar"))
+        except Exception:
+            fails.append(("/updateCache?names=all&foo=bar: no well-formed answer", "/updateCache?names=all&foo=bar"))
+        # the custom cache path (and its aliases): the reload reads <cache>/<path>/ -- answers must then be those of a server
+        # started on that directory, and the success object must name the path
+        ds_alt = gen.gen_dataset(gen.Rng(12), dict(gen.PROFILES["opt"], base=10))
+        ds_alt.scens = [sc for sc in ds_alt.scens if sc[0] != 4] + [(4, [[], [], [], [], [], [], [], [], []])]
+        alt_dir = os.path.join(cache, "alt")
+        l3.write_cache(ds_alt, alt_dir)
+        ref_srv = l3.Server(binary, alt_dir, stub.port)
+        want = [ref_srv.get(probe.replace("36000", str(tq)), timeout=20)[::2] for tq in (30000, 36000, 40000)]
+        ref_srv.stop()
+        for key in ("custom_cache_path", "path", "custom_path"):
+            uq = "/updateCache?names=all&%s=alt" % key
+            st_u, hd_u, body_u = srv.get(uq, timeout=60)
+            got = [srv.get(probe.replace("36000", str(tq)), timeout=20)[::2] for tq in (30000, 36000, 40000)]
+            l3_evals += 4
+            update_evals += 1
+            try:
+                named = json.loads(body_u.decode()).get("custom_cache_path")
+            except Exception:
+                named = None
+            if named != "alt":
+                fails.append(("%s: the success object reports custom_cache_path=%r" % (uq, named), uq))
+            if got != want:
+                fails.append(("after %s the server does not answer like a server started on that directory" % uq, uq))
+            srv.get("/updateCache?names=all", timeout=60)       # back to the main directory
+            if not srv.alive():
+                fails.append(("%s kills the server" % uq, uq))
+                srv = l3.Server(binary, cache, stub.port)
     finally:
         srv.stop()
     # not-ready data: every endpoint answers data_error with the code naming the missing collection
